@@ -35,7 +35,7 @@ class C06:
 
     def generate(self, rng, tier):
         cases = []
-        ncases, nmax = {'quick': (200, 12), 'search': (150, 10), 'thorough': (6000, 40)}.get(tier, (200, 12))
+        ncases, nmax = {'quick': (400, 12), 'search': (150, 10), 'thorough': (6000, 40)}.get(tier, (400, 12))
         cfgs = [(m, d, o) for m in METRICS for d in DISTS for o in ORDERS]
         j = 0
         for i in range(ncases):
